@@ -198,8 +198,15 @@ def run_c13(run: core.Run, n_markers: int) -> None:
         if eq:
             if any(ev(a, env) != ev(b, env) for env in envs):
                 run.fail(core.Failure(f"meval|{ta}|{tb}", f"[{ta}] == [{tb}] but they evaluate differently", rep))
-            if str(a) != str(b):
-                run.fail(core.Failure(f"mstr|{ta}|{tb}", f"[{ta}] == [{tb}] but they render differently ({a} / {b})", rep))
+            # interchangeable as operands: a op x and a op y mean the same
+            for (tc, c_) in pool[:6]:
+                for f in (lambda x: c_ & x, lambda x: x | c_):
+                    try:
+                        r1, r2 = timed(lambda: f(a)), timed(lambda: f(b))
+                    except Exception:  # noqa: BLE001
+                        continue
+                    if any(ev(r1, env) != ev(r2, env) for env in envs):
+                        run.fail(core.Failure(f"minter|{ta}|{tb}|{tc}", f"[{ta}] == [{tb}] but combining them with [{tc}] gives different meanings", rep))
     sample = rng.sample(pool, min(len(pool), 60))
     for (ta, a), (tb, b) in itertools.product(sample, sample):
         run.add(core.Case("marker.eq", "m.eq\t" + mk.leaf_tokens(ta) + "\t" + mk.leaf_tokens(tb), enc_T(a == b), a == b))
@@ -249,9 +256,21 @@ def run_c14(run: core.Run, n_spec: int, n_marker: int) -> None:
                                   {"op": "law", "law": "compl|", "a": enc_spec(a), "b": enc_spec(a), "c": enc_spec(a)}))
     # markers: both sides evaluate identically
     skips = 0
-    for _ in range(n_marker):
-        ts = [mk.marker_text(rng, rng.choice([0, 1, 1, 2])) for _ in range(3)]
-        envs = mk.envs_for(ts, rng, 16)
+    from .p_marker import single_layer_pools
+    pools = single_layer_pools(run.tier)
+    base_env = {"os_name": "posix", "sys_platform": "linux", "platform_machine": "x86_64", "platform_system": "Linux",
+                "platform_release": "5.10", "implementation_name": "cpython", "platform_python_implementation": "CPython",
+                "python_version": "3.9", "python_full_version": "3.9.1", "extra": set(), "implementation_version": "3.9.1",
+                "platform_version": "#1"}
+    for it in range(n_marker):
+        if it % 2 == 0:
+            # operands on ONE variable: atoms and grouped atoms (the single-marker layer)
+            var, pool, penvs = pools[(it // 2) % len(pools)]
+            ts = [rng.choice(pool) for _ in range(3)]
+            envs = [dict(base_env, **e) for e in penvs]
+        else:
+            ts = [mk.marker_text(rng, rng.choice([0, 1, 1, 2])) for _ in range(3)]
+            envs = mk.envs_for(ts, rng, 16)
         La, Lb, Lc = (E("leaf", t) for t in ts)
         laws = [
             ("comm&", E("and", La, Lb), E("and", Lb, La)), ("comm|", E("or", La, Lb), E("or", Lb, La)),
@@ -431,7 +450,7 @@ def run_prop(prop: str, run: core.Run) -> None:
         run_c13(run, 120 if quick else 400)
     elif prop == "C14":
         run.rule = "random triples of canonical specifiers over 3 points (13 laws, real ==) and of markers (10 laws, evaluation)"
-        run_c14(run, 250 if quick else 6000, 60 if quick else 1500)
+        run_c14(run, 250 if quick else 6000, 160 if quick else 2500)
     else:
         run.rule = ("operation histories (parse/&/| with recurring equal-but-differently-built markers and re-rendered results): "
                     "warm in-process results vs the cache-free model, and probes alone in fresh interpreters under 3 hash seeds")
